@@ -46,5 +46,29 @@ fn verif_witness() {
             }
         }
     }
+    // growth past the size the index was created for (sizing thresholds, filter rebuilds): 450 distinct keys with
+    // duplicates, removals and a rebuild interleaved; after every step every key inserted so far is looked up
+    for &expected in &[0usize, 1, 4, 100, 128] {
+        let mut idx = HashIndex::new(JoinKeySpec::new("r", vec![0]), expected);
+        let mut model: Vec<Tuple> = Vec::new();
+        for i in 0..450i64 {
+            idx.insert(t(i, i * 2)); model.push(t(i, i * 2));
+            if i % 7 == 3 { idx.insert(t(i, -1)); model.push(t(i, -1)); }
+            if i % 11 == 5 { let x = t(i - 2, (i - 2) * 2); if let Some(p) = model.iter().position(|m| *m == x) { model.remove(p); } idx.remove(&x); }
+            if i == 300 { idx.build_from_tuples(model.clone()); }
+            cases += 1;
+            let lo = if i > 140 && i % 50 != 0 { i - 140 } else { 0 };
+            for k in lo..=i + 1 {
+                let mut want: Vec<Tuple> = model.iter().filter(|m| m.get(0) == Some(&Value::Int64(k))).cloned().collect();
+                want.sort();
+                for (name, got) in [("get", idx.get(&key(k)).cloned().unwrap_or_default()),
+                                    ("get_with_bloom", idx.get_with_bloom(&key(k)).cloned().unwrap_or_default()),
+                                    ("probe", idx.probe(&key(k)).cloned().collect::<Vec<_>>())] {
+                    let mut g = got; g.sort();
+                    if g != want { vw_found(format!("index created for {} keys, after inserting keys 0..={} (with duplicates, removals, one rebuild at 300): {}(key {}) returned {} tuple(s), {} are stored", expected, i, name, k, g.len(), want.len())); }
+                }
+            }
+        }
+    }
     vw_none(cases);
 }
